@@ -82,6 +82,10 @@ pub struct Sim {
     lat_ms: (u64, u64),
     end: u128,
     now_hint: u128,
+    /// duplication of the scripted peers' answers: every answer is delivered a second time with
+    /// probability 1/dup (0 = never); drawn from a generator of its own
+    dup: u64,
+    dup_rng: Rng,
 }
 
 fn sim_addr(v6: bool, i: usize, port: u16) -> SocketAddr {
@@ -99,6 +103,15 @@ impl Sim {
     fn schedule(&mut self, at: u128, op: String) {
         self.seq += 1;
         self.flights.push(Reverse(Flight { at, seq: self.seq, op }));
+    }
+    /// an answer of a scripted peer: the network may deliver it twice (same instant, a moment
+    /// later, or seconds later)
+    fn schedule_answer(&mut self, at: u128, op: String) {
+        self.schedule(at, op.clone());
+        if self.dup > 0 && self.dup_rng.chance(1, self.dup) {
+            let d = match self.dup_rng.below(4) { 0 => 0, 1 => MS, 2 => self.dup_rng.range(2, 400) as u128 * MS, _ => self.dup_rng.range(1, 30) as u128 * S };
+            self.schedule(at + d, op);
+        }
     }
     fn latency(&mut self) -> u128 { self.rng.range(self.lat_ms.0, self.lat_ms.1) as u128 * MS }
 
@@ -151,7 +164,7 @@ impl Sim {
         let k = from;
         let pid = hex(&self.peers[pi].id);
         match self.peers[pi].policy {
-            Policy::Error => { self.schedule(at, format!("dg {k} {spec} {src} e code=201 msg={}", hex(b"no"))); return }
+            Policy::Error => { self.schedule_answer(at, format!("dg {k} {spec} {src} e code=201 msg={}", hex(b"no"))); return }
             Policy::Garbage => { let g = self.rng.bytes_below(30); self.schedule(at, format!("dgraw {k} {} {src}", hex_or_dash(&g))); return }
             _ => {}
         }
@@ -185,7 +198,7 @@ impl Sim {
                 }
             }
         };
-        self.schedule(at, op);
+        self.schedule_answer(at, op);
     }
 }
 
@@ -208,7 +221,11 @@ pub async fn run_scenario(world: &mut World, req: &str, case: usize, out: &mut V
     // the scenario line itself is the replayable unit for the scenario-level oracles
     out.push((format!("note {req}"), "-".to_string()));
     let v6 = rng.chance(1, 4);
-    let mut sim = Sim { rng: rng.fork(), v6, peers: vec![], reals: vec![], flights: BinaryHeap::new(), seq: 0, lat_ms: (5, 300), end: 0, now_hint: 0 };
+    let mut sim = Sim { rng: rng.fork(), v6, peers: vec![], reals: vec![], flights: BinaryHeap::new(), seq: 0, lat_ms: (5, 300), end: 0, now_hint: 0, dup: 0, dup_rng: Rng::new(seed ^ 0xd0b1_e5) };
+    if kind != "e2e" && kind != "e2e24" && sim.dup_rng.chance(1, 3) {
+        sim.dup = *sim.dup_rng.pick(&[2u64, 4, 10]);
+        st.hit("scenario_with_duplicated_answers");
+    }
     let t0: u128 = 1000 * S;
     let mut ck = Checker::new(&kind);
 
